@@ -41,7 +41,7 @@ type Case struct {
 
 var spinCores = []string{"loop", "loop_cond", "cfor", "cfor_nocond", "forin_nested", "forin_map", "recursion", "loop_in_switch", "loop_nested_break", "loop_continue", "fanout_range", "fanout_recv", "fanout_recv2", "pipeline_relay", "deep_recursion", "fail_after_tick", "member_after_tick", "throw_spin", "fail_in_finally_try", "tick_sequence"}
 var blockCores = []string{"recv", "send", "recv2", "range_chan", "recv_stmt", "drain_two", "drain_three", "forward_blocked", "forward_full", "module_write_after_failed_path"}
-var wrappers = []string{"fn0", "fn2", "fn4", "fn5", "fnvar", "anon", "go_join", "go_join5", "try_body", "catch", "finally", "coalesce_l", "coalesce_r", "ternary", "deferred", "list_elem", "go_arg", "module", "if", "switch_case", "forin_once", "try_empty_catch", "try_empty_catch_e", "try_empty_finally", "deferred_implicit", "deferred_top", "deferred_twice", "return_call", "finally_after_throwing_catch", "finally_after_returning_catch", "callback", "defer_spin_behind", "defer_block_behind", "deferred_spread", "recv_ok_target"}
+var wrappers = []string{"fn0", "fn2", "fn4", "fn5", "fnvar", "anon", "go_join", "go_join5", "try_body", "catch", "finally", "coalesce_l", "coalesce_r", "ternary", "deferred", "list_elem", "go_arg", "module", "if", "switch_case", "forin_once", "try_empty_catch", "try_empty_catch_e", "try_empty_finally", "deferred_implicit", "deferred_top", "deferred_twice", "return_call", "finally_after_throwing_catch", "finally_after_returning_catch", "callback", "defer_spin_behind", "defer_block_behind", "deferred_spread", "recv_ok_target", "recv_ok_target_new"}
 
 func gen(t *rapid.T) Case {
 	c := Case{Procs: 0}
@@ -255,6 +255,9 @@ func wrap(w string, body string, level int, tail bool) string {
 	case "recv_ok_target":
 		// the core runs while the TARGET of the ok flag of a two-value receive is being evaluated
 		return def("") + "okch = make(chan int64, 1)\nokch <- 1\nokm = {}\nokv = 0\nokv, okm[" + fn + "()] = <-okch" + sent
+	case "recv_ok_target_new":
+		// the same with a value target that is a new name (binding a new name must not clear the interruption)
+		return def("") + "okch = make(chan int64, 1)\nokch <- 1\nokm = {}\nokw, okm[" + fn + "()] = <-okch" + sent
 	case "defer_spin_behind":
 		// the frame that is interrupted has registered a deferred SCRIPT function that would spin: it runs
 		// under the same cancelled context and ends at its first statement
